@@ -26,8 +26,19 @@ def wl_bloom_pairs(ctx, rng, case):
     keys = gen.universe(rng, rng.randint(2, 18))
     est, rate, m, k = gen.bloom_geometry(rng)
     hname, hf = gen.pick_hash(rng, keys)
-    compat_kind = rng.choice(["same", "same", "same", "other_geometry", "other_geometry", "other_hash", "identical", "both_empty"])
+    compat_kind = rng.choice(["same", "same", "same", "other_geometry", "other_geometry", "other_hash", "identical", "both_empty", "coincident"])
     est2, rate2, m2, k2, hname2, hf2 = est, rate, m, k, hname, hf
+    if compat_kind == "coincident":
+        # two DIFFERENT requests (est_elements, rate) that derive the same bits and hashes: compatible operands, in either order
+        pair = gen.same_geometry_pair(rng)
+        if pair:
+            est, rate, est2, rate2, (m, k) = pair
+            m2, k2 = m, k
+            if rng.random() < 0.5:
+                est, rate, est2, rate2 = est2, rate2, est, rate
+            ctx.count("coincident_geometry_pairs")
+        else:
+            compat_kind = "same"
     if compat_kind == "other_geometry":
         for _ in range(50):
             est2, rate2, m2, k2 = gen.bloom_geometry(rng)
